@@ -1,5 +1,6 @@
-import Driver.Util
-/-! `drv_loop`: not built yet -/
+import Driver.LoopDrv
+open Driver
+
 def main : IO UInt32 := do
-  IO.eprintln "drv_loop: engine not implemented"
-  return 2
+  let lines ← readLines (← IO.getStdin) #[]
+  LoopDrv.main lines
